@@ -81,6 +81,13 @@ func body13(k c13case) Body {
 				case "hello-late":
 					simnet.Gap(ch.DefaultReadTimeout + time.Second)
 					c.Deliver(hb)
+				case "hello-late2", "hello-late3", "hello-last-window", "hello-last-moment":
+					// every hello that arrives before the handshake timeout is to be accepted: after
+					// 2.5 and 4.2 read timeouts, half a read timeout and 10 ms before the end
+					d := map[string]time.Duration{"hello-late2": ch.DefaultReadTimeout*5/2, "hello-late3": ch.DefaultReadTimeout*21/5,
+						"hello-last-window": c13HandshakeTimeout - ch.DefaultReadTimeout/2, "hello-last-moment": c13HandshakeTimeout - 10*time.Millisecond}[k.resp]
+					simnet.Gap(d)
+					c.Deliver(hb)
 				case "exception":
 					c.Deliver(Wire{Rev: neg}.Exception(refwire.Exception{Code: 516, Name: "DB::Exception", Message: "DB::Exception: default: Authentication failed", Stack: ""}))
 				case "exception-close":
@@ -115,7 +122,7 @@ func body13(k c13case) Body {
 			cl, err = ch.Connect(context.Background(), conn, opt)
 		}
 		defer vsched.Quiet(func() { _ = conn.Close() })
-		expectOK := k.resp == "hello" || k.resp == "hello-late"
+		expectOK := k.resp == "hello" || strings.HasPrefix(k.resp, "hello-la")
 		if !expectOK {
 			if err == nil {
 				if cl != nil {
@@ -139,7 +146,7 @@ func body13(k c13case) Body {
 		}
 		if err != nil {
 			cls := "hello"
-			if k.resp == "hello-late" {
+			if strings.HasPrefix(k.resp, "hello-la") {
 				cls = "late-hello-before-handshake-timeout"
 			} else if k.srev < k.crev && (k.srev < refwire.RevVersionPatch) {
 				cls = "older-server-hello"
@@ -214,7 +221,7 @@ func body13(k c13case) Body {
 
 // C13 — handshake negotiates min(client, server) revision and fails cleanly.
 func C13(c *vk.Ctx) {
-	c.Rule("client revision x server revision over the threshold-neighbour revision set (every interval between consecutive feature revisions plus both neighbours of each threshold; client <= 54460, server <= 54480) with a well-formed hello; {hello delayed by read timeout + 1 s, exception, exception followed at once by the close (end of stream reported together with its last bytes), Pong, Data, garbage, immediate cut, silence until the handshake timeout, hello truncated at every byte} x a diagonal of revision pairs; 4 credential / database / quota-key string sets; through Connect and through Dial with a simulated dialer. The reference peer writes its hello with the fields defined at min(client, server). After a successful handshake a query is executed and its packets are parsed / rendered by the reference model at min(client, server). distinct_nontrivial = cases.")
+	c.Rule("client revision x server revision over the threshold-neighbour revision set (every interval between consecutive feature revisions plus both neighbours of each threshold; client <= 54460, server <= 54480) with a well-formed hello; {hello delayed by read timeout + 1 s, by 2.5 and 4.2 read timeouts, until half a read timeout and until 10 ms before the handshake timeout, exception, exception followed at once by the close (end of stream reported together with its last bytes), Pong, Data, garbage, immediate cut, silence until the handshake timeout, hello truncated at every byte} x a diagonal of revision pairs; 4 credential / database / quota-key string sets; through Connect and through Dial with a simulated dialer. The reference peer writes its hello with the fields defined at min(client, server). After a successful handshake a query is executed and its packets are parsed / rendered by the reference model at min(client, server). distinct_nontrivial = cases.")
 	crevs := refwire.RevSet(50000, 54460)
 	srevs := refwire.RevSet(50000, 54480)
 	run := func(k c13case, group string) {
@@ -265,7 +272,7 @@ func C13(c *vk.Ctx) {
 	}
 	for _, p := range pairs {
 		for _, dial := range []bool{false, true} {
-			for _, resp := range []string{"hello-late", "exception", "exception-close", "pong", "data", "garbage", "cut", "silence"} {
+			for _, resp := range []string{"hello-late", "hello-late2", "hello-late3", "hello-last-window", "hello-last-moment", "exception", "exception-close", "pong", "data", "garbage", "cut", "silence"} {
 				run(c13case{crev: p.c, srev: p.s, resp: resp, dial: dial}, "fault responses")
 			}
 			hb := ServerHello(func() refwire.ServerHello { h := baseHello; h.Revision = p.s; return h }(), p.c)
